@@ -1,0 +1,279 @@
+//go:build verif
+
+package rpc
+
+// Verification-only trace of the client/daemon protocol (property C26 of the
+// Lean verification machinery). Compiled only with -tags verif; the normal
+// build uses the empty stubs in trace_noverif.go.
+//
+// When tracing is on (VerifTraceStart), every hook point appends one entry to
+// an in-memory log under one mutex; the order of the log is the order in which
+// the hook points were passed. The entries name client objects, calls and
+// connections by small numbers assigned in the order in which they first
+// appear in the log. To make the log a faithful linear order two things are
+// serialised while tracing: dialling (so that the k-th connection dialled is
+// the k-th connection the daemon accepts) and the execution of service methods
+// (so that the order of the "commit" entries is the order in which the methods
+// ran). Tracing off: the hooks only test a flag.
+
+import (
+	"io"
+	"reflect"
+	"sync"
+)
+
+// VerifEntry is one entry of the protocol trace.
+type VerifEntry struct {
+	Kind   string // new invoke dial dialfail send sendsd giveup read commit lock whdr wbody recv ret reterr ieof ierr
+	A, B   int    // ids, see the hook functions
+	Seq    uint64 // rpc sequence number on the connection
+	Method string
+	Args   any // request struct (pointer)
+	Reply  any // reply struct (pointer)
+	Err    string
+}
+
+var verifT struct {
+	mu       sync.Mutex
+	on       bool
+	log      []VerifEntry
+	objs     map[any]int
+	calls    map[[2]any]int // (request pointer, reply pointer) -> call id; one of the two structs may have size zero
+	nCalls   int
+	cconns   map[*Client]int
+	nConns   int
+	accepted int
+	sconns   map[any]int         // net.Conn -> connection id (accept order)
+	codecs   map[ServerCodec]int // server codec -> connection id
+}
+
+var verifDialMu, verifCommitMu sync.Mutex
+
+// VerifTraceStart clears the log and turns tracing on.
+func VerifTraceStart() {
+	t := &verifT
+	t.mu.Lock()
+	defer t.mu.Unlock()
+	t.on = true
+	t.log = nil
+	t.objs = map[any]int{}
+	t.calls = map[[2]any]int{}
+	t.nCalls = 0
+	t.cconns = map[*Client]int{}
+	t.sconns = map[any]int{}
+	t.codecs = map[ServerCodec]int{}
+	t.nConns, t.accepted = 0, 0
+}
+
+// VerifTraceStop turns tracing off and returns the log.
+func VerifTraceStop() []VerifEntry {
+	t := &verifT
+	t.mu.Lock()
+	defer t.mu.Unlock()
+	t.on = false
+	l := t.log
+	t.log = nil
+	return l
+}
+
+func verifOn() bool {
+	verifT.mu.Lock()
+	defer verifT.mu.Unlock()
+	return verifT.on
+}
+
+// ---- hooks called from pkg/daemon (client.call, the accept loop) ----------------
+
+// VerifInvoke: a goroutine enters client.call on client object obj.
+func VerifInvoke(obj any, method string, req, res any) {
+	t := &verifT
+	t.mu.Lock()
+	defer t.mu.Unlock()
+	if !t.on {
+		return
+	}
+	o, ok := t.objs[obj]
+	if !ok {
+		o = len(t.objs)
+		t.objs[obj] = o
+		t.log = append(t.log, VerifEntry{Kind: "new", A: o})
+	}
+	id := t.nCalls
+	t.nCalls++
+	t.calls[[2]any{req, res}] = id
+	t.log = append(t.log, VerifEntry{Kind: "invoke", A: id, B: o, Method: method, Args: req})
+}
+
+// VerifDialBegin serialises dialling while tracing; the result is passed to VerifDialEnd.
+func VerifDialBegin() bool {
+	if !verifOn() {
+		return false
+	}
+	verifDialMu.Lock()
+	return true
+}
+
+// VerifDialEnd: the dial of the call with request req has ended (client == nil: it failed).
+func VerifDialEnd(tok bool, req, res any, client *Client) {
+	t := &verifT
+	t.mu.Lock()
+	if t.on {
+		if id, ok := t.calls[[2]any{req, res}]; ok {
+			if client == nil {
+				t.log = append(t.log, VerifEntry{Kind: "dialfail", A: id})
+			} else {
+				c := t.nConns
+				t.nConns++
+				t.cconns[client] = c
+				t.log = append(t.log, VerifEntry{Kind: "dial", A: id, B: c})
+			}
+		}
+	}
+	t.mu.Unlock()
+	if tok {
+		verifDialMu.Unlock()
+	}
+}
+
+// VerifReturn: client.call returns err (nil, a ServerError, or a transport error).
+func VerifReturn(req, res any, err error) {
+	t := &verifT
+	t.mu.Lock()
+	defer t.mu.Unlock()
+	if !t.on {
+		return
+	}
+	id, ok := t.calls[[2]any{req, res}]
+	if !ok {
+		return
+	}
+	delete(t.calls, [2]any{req, res})
+	switch e := err.(type) {
+	case nil:
+		t.log = append(t.log, VerifEntry{Kind: "ret", A: id, Reply: res})
+	case ServerError:
+		t.log = append(t.log, VerifEntry{Kind: "ret", A: id, Reply: res, Err: string(e)})
+	default:
+		t.log = append(t.log, VerifEntry{Kind: "reterr", A: id, Err: err.Error()})
+	}
+}
+
+// VerifGiveUp: client.call has used up its retries.
+func VerifGiveUp(req, res any) {
+	t := &verifT
+	t.mu.Lock()
+	defer t.mu.Unlock()
+	if id, ok := t.calls[[2]any{req, res}]; ok && t.on {
+		t.log = append(t.log, VerifEntry{Kind: "giveup", A: id}, VerifEntry{Kind: "reterr", A: id, Err: "daemon offline"})
+	}
+}
+
+// VerifAccepted: the daemon's accept loop has accepted conn.
+func VerifAccepted(conn any) {
+	t := &verifT
+	t.mu.Lock()
+	defer t.mu.Unlock()
+	if t.on {
+		t.sconns[conn] = t.accepted
+		t.accepted++
+	}
+}
+
+// ---- hooks inside this package ------------------------------------------------------
+
+func verifSend(client *Client, call *Call, seq uint64) {
+	t := &verifT
+	t.mu.Lock()
+	defer t.mu.Unlock()
+	if !t.on {
+		return
+	}
+	id, ok1 := t.calls[[2]any{call.Args, call.Reply}]
+	c, ok2 := t.cconns[client]
+	if ok1 && ok2 {
+		t.log = append(t.log, VerifEntry{Kind: "send", A: id, B: c, Seq: seq, Method: call.ServiceMethod})
+	}
+}
+
+func verifSendShutdown(client *Client, call *Call) {
+	t := &verifT
+	t.mu.Lock()
+	defer t.mu.Unlock()
+	if id, ok := t.calls[[2]any{call.Args, call.Reply}]; ok && t.on {
+		t.log = append(t.log, VerifEntry{Kind: "sendsd", A: id})
+	}
+}
+
+func verifRecv(client *Client, seq uint64) {
+	t := &verifT
+	t.mu.Lock()
+	defer t.mu.Unlock()
+	if c, ok := t.cconns[client]; ok && t.on {
+		t.log = append(t.log, VerifEntry{Kind: "recv", B: c, Seq: seq})
+	}
+}
+
+func verifInputEnd(client *Client, err error, closing bool) {
+	t := &verifT
+	t.mu.Lock()
+	defer t.mu.Unlock()
+	c, ok := t.cconns[client]
+	if !ok || !t.on {
+		return
+	}
+	kind := "ierr"
+	if err == ErrShutdown || err == io.ErrUnexpectedEOF {
+		kind = "ieof" // the read returned io.EOF (mapped to one of these two just before)
+	}
+	t.log = append(t.log, VerifEntry{Kind: kind, B: c, Err: err.Error()})
+}
+
+func verifServe(codec ServerCodec, conn io.ReadWriteCloser) {
+	t := &verifT
+	t.mu.Lock()
+	defer t.mu.Unlock()
+	if c, ok := t.sconns[conn]; ok && t.on {
+		t.codecs[codec] = c
+	}
+}
+
+func verifRead(codec ServerCodec, req *Request, argv reflect.Value) {
+	t := &verifT
+	t.mu.Lock()
+	defer t.mu.Unlock()
+	if c, ok := t.codecs[codec]; ok && t.on {
+		t.log = append(t.log, VerifEntry{Kind: "read", B: c, Seq: req.Seq, Method: req.ServiceMethod, Args: argv.Interface()})
+	}
+}
+
+func verifCommitBegin() bool {
+	if !verifOn() {
+		return false
+	}
+	verifCommitMu.Lock()
+	return true
+}
+
+func verifCommitEnd(tok bool, codec ServerCodec, req *Request, reply any, errmsg string) {
+	t := &verifT
+	t.mu.Lock()
+	if c, ok := t.codecs[codec]; ok && t.on && tok {
+		t.log = append(t.log, VerifEntry{Kind: "commit", B: c, Seq: req.Seq, Method: req.ServiceMethod, Reply: reply, Err: errmsg})
+	}
+	t.mu.Unlock()
+	if tok {
+		verifCommitMu.Unlock()
+	}
+}
+
+func verifRespond(codec ServerCodec, req *Request) {
+	t := &verifT
+	t.mu.Lock()
+	defer t.mu.Unlock()
+	if c, ok := t.codecs[codec]; ok && t.on {
+		t.log = append(t.log,
+			VerifEntry{Kind: "lock", B: c, Seq: req.Seq},
+			VerifEntry{Kind: "whdr", B: c, Seq: req.Seq},
+			VerifEntry{Kind: "wbody", B: c, Seq: req.Seq})
+	}
+}
